@@ -126,6 +126,22 @@ CHECKS = {
         note="Trusted: snapshot comparison of todense()*coeff. Chain objects; evolve_exact is covered in C10, tree objects in C11/C12, OFS in C17.",
         technique="stateful property testing (generated derive/mutate/observe histories, snapshot invariant over all live objects)",
     ),
+    "C14": dict(
+        category="fault_enumeration",
+        text="(a) Round trip: generated Mps / MpDm / Mpo / TTNS objects (real/complex, any gauge and qn centre, 1-2 quantum numbers, "
+             "prefactor != 1, with and without spilling site tensors to disk) are dumped and loaded: tensors bit-identical, prefactor, "
+             "qntot, qnidx, direction, labels, dtype equal, and an identical follow-up program (canonicalise, compress, expectation, one "
+             "TDVP step) gives identical results. (b) Crash safety by fault enumeration: for generated job histories (a harness "
+             "TdMpsJob and the real ThermalProp, 1-4 steps, dump_mps None/one/all) EVERY crash instant is enumerated - before/after each "
+             "file-system call of dump_dict and four byte-truncation classes inside the write, in-process (uncatchable exception) and, "
+             "in the thorough tier, by real SIGKILL under strace syscall injection - optionally followed by a restart into the "
+             "left-over directory crashed again at every instant of its first two dumps; oracle: a complete loadable result of "
+             "the current or previous step remains.",
+        design_ref="DESIGN.md §4 C14",
+        note="Crash = process death at a file-system call boundary or inside the write (no page-cache reordering model). Legacy dump "
+             "formats 0.1-0.3 have no writer in the tree and are not round-tripped.",
+        technique="fault injection enumerated over all crash points of generated job histories + round-trip property testing (Hypothesis)",
+    ),
     "C15": dict(
         category="exploration",
         text="Generated expression programs over Op / OpSum / lists / scalars (all public operators, both operand orders, in-place add, "
